@@ -3,7 +3,7 @@ from typing import Any, Generator, Sequence
 from ..containers import EdgesBag
 from ..engine import (
     ConstantEdge, IdentityEdge, Node, NodeHash, Edge, NodeHashes, HashOutput, Request, Response, Command, Details,
-    CustomHash,
+    CustomHash, LeafHash,
 )
 from ..interface.utils import format_arguments
 from ..utils import node_to_dict
@@ -114,4 +114,5 @@ class SwitchEdge(Edge):
         return value
 
     def _hash_graph(self, inputs: NodeHashes) -> NodeHash:
-        return CustomHash('connectome.SwitchEdge', *inputs)
+        # the routing is a part of the computation: the same branches with another routing give other values
+        return CustomHash('connectome.SwitchEdge', LeafHash(tuple(sorted(self.id_to_index.items()))), *inputs)
